@@ -267,13 +267,23 @@ Fixpoint mask_concat (m : list bool) (ks : list (list Z)) : list Z :=
 Definition set_members (fs : list value) : option (list value) :=
   match fs with [VTuple l] => Some l | _ => None end.
 
+(* CPython's hash of an int (64-bit build): sign * (|z| mod (2^61 - 1)), with -1 replaced by -2.  So e.g.
+   hash(2^64 - 1) = hash(7) and hash(-1) = hash(-2): unequal ints whose hashes collide by construction. *)
+Definition py_modulus : Z := 2305843009213693951%Z.
+Definition pyhash_int (z : Z) : Z :=
+  let h := (Z.sgn z * (Z.abs z mod py_modulus))%Z in
+  if Z.eqb h (-1) then (-2)%Z else h.
+
 Fixpoint hk (S : schema) (hv : hvariant) (v : value) {struct v} : list Z :=
   match v with
   | VNone => [1%Z]
-  | VBool b => [0; if b then 1 else 0]%Z          (* hash(True) == hash(1) *)
-  | VInt z => [0%Z; z]
+  | VBool b => [0%Z; pyhash_int (if b then 1 else 0)]      (* hash(True) == hash(1) *)
+  | VInt z => [0%Z; pyhash_int z]
   | VFloat z => [8%Z; z]
-  | VStr s => 2%Z :: tok_str s
+  | VStr s => match s with
+              | EmptyString => [0%Z; 0%Z]                  (* hash('') == 0 == hash(0) == hash(False) *)
+              | _ => 2%Z :: tok_str s
+              end
   | VEnumS e s => 3%Z :: tok_str e ++ tok_str s
   | VEnumI e z => 4%Z :: tok_str e ++ [z]
   | VTuple l => 5%Z :: Z.of_nat (List.length l) :: List.concat (map (hk S hv) l)
